@@ -543,7 +543,7 @@ func (c *FnCtx) binop(env *Env, op token.Token, l, r Val, n ast.Node) Val {
 	case token.SUB:
 		return Val{T: c.wrap(app("-", l.T, r.T), resT, env), Typ: resT}
 	case token.MUL:
-		return Val{T: c.wrap(app("*", l.T, r.T), resT, env), Typ: resT}
+		return Val{T: c.wrap(c.mulT(l.T, r.T), resT, env), Typ: resT}
 	case token.QUO:
 		if !env.spec {
 			c.safe(env.st, "div", not(eq(r.T, "0")), n)
@@ -652,12 +652,12 @@ func (c *FnCtx) shift(env *Env, op token.Token, l, r Val, n ast.Node) Val {
 		p := c.pow2(r.T)
 		if op == token.SHL {
 			if env.spec || bits == 0 {
-				return Val{T: app("*", l.T, p), Typ: resT}
+				return Val{T: c.mulT(l.T, p), Typ: resT}
 			}
 			// count >= width gives 0 in Go; product wraps
-			return Val{T: ite(app(">=", r.T, fmt.Sprint(bits)), "0", c.wrap(app("*", l.T, p), resT, env)), Typ: resT}
+			return Val{T: ite(app(">=", r.T, fmt.Sprint(bits)), "0", c.wrap(c.mulT(l.T, p), resT, env)), Typ: resT}
 		}
-		fl := app("div", l.T, p) // floor division = arithmetic shift
+		fl := c.divT(l.T, p) // floor division = arithmetic shift
 		if env.spec || bits == 0 {
 			return Val{T: fl, Typ: resT}
 		}
@@ -678,6 +678,61 @@ func (c *FnCtx) shift(env *Env, op token.Token, l, r Val, n ast.Node) Val {
 		return Val{T: c.wrap(app("*", l.T, p), resT, env), Typ: resT}
 	}
 	return Val{T: app("div", l.T, p), Typ: resT}
+}
+
+// mulT / divT: product and floor quotient.  When one operand is a symbolic power of two the
+// operation is kept as the uninterpreted mulp2 / divp2 applied to the exponent: code and
+// specification then agree by congruence as soon as the exponents agree, and the solver is
+// spared non-linear arithmetic over (pow2 n).  Leaving the two functions uninterpreted only
+// weakens what can be proved (any fact shown holds for every interpretation, the real one
+// included).
+func (c *FnCtx) mulT(a, b string) string {
+	if e, ok := pow2Arg(b); ok {
+		c.declP2()
+		return app("mulp2", a, e)
+	}
+	if e, ok := pow2Arg(a); ok {
+		c.declP2()
+		return app("mulp2", b, e)
+	}
+	return app("*", a, b)
+}
+
+func (c *FnCtx) divT(a, b string) string {
+	if e, ok := pow2Arg(b); ok {
+		c.declP2()
+		return app("divp2", a, e)
+	}
+	return app("div", a, b)
+}
+
+func pow2Arg(t string) (string, bool) {
+	if strings.HasPrefix(t, "(pow2 ") && strings.HasSuffix(t, ")") {
+		return t[len("(pow2 ") : len(t)-1], true
+	}
+	return "", false
+}
+
+func (c *FnCtx) declP2() {
+	if !c.declSet["mulp2"] {
+		c.declSet["mulp2"] = true
+		c.decls = append(c.decls, "(declare-fun mulp2 (Int Int) Int)", "(declare-fun divp2 (Int Int) Int)")
+		// their meaning for every exponent a machine shift can have, as linear facts per exponent
+		var m, d strings.Builder
+		m.WriteString("(assert (forall ((x Int) (n Int)) (! (and")
+		d.WriteString("(assert (forall ((x Int) (n Int)) (! (and")
+		for k := 0; k <= 128; k++ {
+			p := pow2(k).String()
+			fmt.Fprintf(&m, " (=> (= n %d) (= (mulp2 x n) (* %s x)))", k, p)
+			fmt.Fprintf(&d, " (=> (= n %d) (= (divp2 x n) (div x %s)))", k, p)
+		}
+		p128 := pow2(128).String()
+		fmt.Fprintf(&m, " (=> (<= n 0) (= (mulp2 x n) x)) (=> (= x 0) (= (mulp2 x n) 0)) (=> (and (> n 128) (> x 0)) (> (mulp2 x n) %s)) (=> (and (> n 128) (< x 0)) (< (mulp2 x n) (- %s)))", p128, p128)
+		fmt.Fprintf(&d, " (=> (<= n 0) (= (divp2 x n) x)) (=> (and (> n 128) (<= (- %s) x) (< x %s)) (= (divp2 x n) (ite (< x 0) (- 1) 0)))", p128, p128)
+		m.WriteString(") :pattern ((mulp2 x n)))))")
+		d.WriteString(") :pattern ((divp2 x n)))))")
+		c.decls = append(c.decls, m.String(), d.String())
+	}
 }
 
 func (c *FnCtx) pow2(k string) string {
